@@ -770,6 +770,24 @@ class Emit:
                     if I['dst']: f._defs[I['dst']] = I
         return f._defs
 
+    def nuses(s, name):
+        f = s.cur
+        if getattr(f, '_nuses', None) is None:
+            f._nuses = {}
+            def walk(x):
+                if isinstance(x, tuple):
+                    if len(x) == 2 and x[0] == 'ref' and isinstance(x[1], str): f._nuses[x[1]] = f._nuses.get(x[1], 0) + 1
+                    else:
+                        for y in x: walk(y)
+                elif isinstance(x, (list,)):
+                    for y in x: walk(y)
+                elif isinstance(x, dict):
+                    for k, y in x.items():
+                        if k != 'dst': walk(y)
+            for lbl, ins in f.blocks:
+                for I in ins: walk(I)
+        return f._nuses.get(name, 0)
+
     def vslot(s, cal):
         """if callee = load(gep(load(obj), k)) return byte offset k*8 of the vtable slot, else None"""
         D = s.defs()
@@ -971,7 +989,15 @@ class Emit:
             t = I['ty']; p = V(I['p'], Ptr(t))
             o.append('    %s = %s;' % (d, s.load(t, p)))
         elif op == 'store':
-            t = I['ty']; p = V(I['p'], Ptr(t)); v = V(I['v'], t)
+            t = I['ty']
+            if isinstance(t, Int) and t.n == 64 and I['v'][0] == 'ref':
+                # a pointer stored through an integer slot (clang copies a one-pointer struct, e.g. a stored reference, as i64): keep it a
+                # pointer store when the integer has no other use, so that the later pointer-typed load yields a dereferenceable pointer
+                D = s.defs(); J = D.get(I['v'][1])
+                if J is not None and J['op'] == 'ptrtoint' and isinstance(J['ft'], Ptr) and s.nuses(I['v'][1]) == 1:
+                    o.append('    *(uint8_t**)(%s) = (uint8_t*)(%s);' % (V(I['p'], Ptr(t)), V(J['a'], J['ft'])))
+                    return
+            p = V(I['p'], Ptr(t)); v = V(I['v'], t)
             o.append('    %s;' % s.store(t, p, v))
         elif op == 'getelementptr':
             o.append('    %s = %s + (%s);' % (d, V(I['p'], I['pt']), s.gep_off(I['bt'], I['idx'])))
